@@ -271,6 +271,13 @@ func TestVerifHarnessC08(t *testing.T) {
 		budget = 230 * time.Second
 	}
 	r := c08NewRunner(t, budget)
+	// watchdog per job: generous in thorough mode, 30 s in quick mode (a hang is a violation either way)
+	jt := func(sec int) time.Duration {
+		if !thorough {
+			return 30 * time.Second
+		}
+		return time.Duration(sec) * time.Second
+	}
 	boundText := ""
 	defer func() { r.writeStats(boundText, false) }()
 	rng := rand.New(rand.NewSource(seed))
@@ -327,19 +334,19 @@ func TestVerifHarnessC08(t *testing.T) {
 	}
 	boundText = fmt.Sprintf("bound=%s seed=%d; pool of %d small indexes (cols a,b and a 6-column one; all 3 writers, both open modes) x %d queries (%d exprs x %d group-by lists incl. nil, empty, repeated, unknown) x %d sequences (all pairs, all i-i-i, %d random triples, %d random of length 4..8)",
 		bound, seed, len(specs), len(queries), len(exprs), len(lists), len(seqs), nTriples, nLong)
-	if v := r.run("small pool", jobs, 60*time.Second); v != nil {
+	if v := r.run("small pool", jobs, jt(60)); v != nil {
 		c08Report(t, "C08", v)
 	}
 
 	// phase 2: pools of generated datasets, random queries and histories
 	jobs = nil
-	nPools := 4
+	nPools := 8
 	if thorough {
-		nPools = 60
+		nPools = 150
 	}
 	nGenQ, nGenSeq := 40, 25
 	if thorough {
-		nGenQ, nGenSeq = 120, 60
+		nGenQ, nGenSeq = 150, 60
 	}
 	for pi := 0; pi < nPools; pi++ {
 		prng := rand.New(rand.NewSource(seed*1000 + int64(pi)))
@@ -385,7 +392,7 @@ func TestVerifHarnessC08(t *testing.T) {
 		jobs = append(jobs, c08MkJob(gspecs, gq, gs))
 	}
 	boundText += fmt.Sprintf("; %d pools of 4 generated indexes (wide/mix/strings, n in 30..5000) x %d random queries (group-by length 0..4) x %d random histories of length 2..6", nPools, nGenQ, nGenSeq)
-	if v := r.run("generated pools", jobs, 120*time.Second); v != nil {
+	if v := r.run("generated pools", jobs, jt(120)); v != nil {
 		c08Report(t, "C08", v)
 	}
 }
